@@ -148,9 +148,19 @@ impl<V, BS: Blockstore> Array<V, BS> {
 #[verifier::reject_recursive_types(V)]
 #[verifier::reject_recursive_types(K1)]
 #[verifier::reject_recursive_types(K2)]
-pub struct MapMap<BS, V, K1, K2> { p: PhantomData<(BS, V, K1, K2)> }
-impl<BS: Blockstore, V, K1, K2> MapMap<BS, V, K1, K2> {
+pub struct MapMap<'a, BS, V, K1, K2> { p: PhantomData<(&'a BS, V, K1, K2)> }
+pub uninterp spec fn mapmap_decode<V, K1, K2>(c: Cid) -> Map<(K1, K2), V>;
+impl<'a, BS: Blockstore, V, K1, K2> MapMap<'a, BS, V, K1, K2> {
     pub uninterp spec fn view(&self) -> Map<(K1, K2), V>;
+    /// content addressing, as for Map2
+    #[verifier::external_body]
+    pub fn from_root(store: &'a BS, root: &Cid, outer_bitwidth: u32, inner_bitwidth: u32) -> (r: Result<Self, AnyhowError>)
+        ensures vx_store_ok() ==> r.is_ok(), r.is_ok() ==> r->Ok_0.view() == mapmap_decode::<V, K1, K2>(*root),
+    { unimplemented!() }
+    #[verifier::external_body]
+    pub fn flush(&mut self) -> (r: Result<Cid, AnyhowError>)
+        ensures vx_store_ok() ==> r.is_ok(), final(self).view() == old(self).view(), r.is_ok() ==> mapmap_decode::<V, K1, K2>(r->Ok_0) == old(self).view(),
+    { unimplemented!() }
     #[verifier::external_body]
     pub fn get(&mut self, k1: K1, k2: K2) -> (r: Result<Option<&V>, ActorError>)
         ensures
